@@ -112,12 +112,101 @@ fn g_keys(ch: &mut Chooser, acc: &mut Acc) -> B {
             b.emit(asm::JUMPI);
         }
         let entry = b.depth;
-        match ch.below(8) {
+        match ch.below(10) {
             0 => {
                 b.push(W::from_u64(4));
                 b.emit(asm::CALLDATALOAD);
                 b.push_wide(*k, ch);
                 b.emit(asm::SSTORE);
+            }
+            8 | 9 => {
+                // the loaded word goes into an operand the analysis does not keep as a value of its own:
+                // the read itself must still be remembered
+                acc.label("pattern:read-into-sink");
+                let sink = ch.below(11);
+                if sink == 0 {
+                    // shift amount under a constant mask
+                    b.push(W::from_u64(4));
+                    b.emit(asm::CALLDATALOAD);
+                }
+                b.push_wide(*k, ch);
+                b.emit(asm::SLOAD);
+                match sink {
+                    0 => {
+                        b.emit(*ch.pick(&[asm::SHR, asm::SHL, asm::SAR]));
+                        b.push(*ch.pick(&[idiom::mask(160), idiom::mask(8), idiom::mask(128)]));
+                        b.emit(asm::AND);
+                        b.push(W::ZERO);
+                        b.emit(asm::MSTORE);
+                    }
+                    1 => {
+                        // grown past the default value size limit, then stored to memory
+                        for _ in 0..ch.range(8, 10) {
+                            b.emit(asm::DUP1);
+                            b.emit(*ch.pick(&[asm::ADD, asm::MUL, asm::XOR]));
+                        }
+                        b.push(W::ZERO);
+                        b.emit(asm::MSTORE);
+                    }
+                    2 => {
+                        // size of a log / copy
+                        b.push(W::ZERO);
+                        b.emit(asm::LOG0);
+                    }
+                    3 => {
+                        b.push(W::ZERO);
+                        b.push(W::ZERO);
+                        b.emit(asm::CALLDATACOPY);
+                    }
+                    4 => {
+                        // symbolic memory offset of a load / store
+                        if ch.chance(1, 2) {
+                            b.emit(asm::MLOAD);
+                            b.emit(asm::POP);
+                        } else {
+                            b.push(W::ONE);
+                            b.emit(asm::SWAP1);
+                            b.emit(asm::MSTORE);
+                        }
+                    }
+                    5 => {
+                        // argument of an environment query whose result is dropped
+                        b.emit(*ch.pick(&[asm::BALANCE, asm::EXTCODESIZE, asm::EXTCODEHASH, asm::BLOCKHASH, asm::ISZERO, asm::NOT]));
+                        b.emit(asm::POP);
+                    }
+                    6 => {
+                        // size of a hash
+                        b.push(W::ZERO);
+                        b.emit(asm::SHA3);
+                        b.emit(asm::POP);
+                    }
+                    7 => {
+                        // condition of a branch to the next instruction
+                        let l2 = b.label();
+                        b.push_label(l2);
+                        b.emit(asm::JUMPI);
+                        b.place(l2);
+                    }
+                    8 => {
+                        // exponent / operand of arithmetic that is popped
+                        b.push(W::from_u64(3));
+                        b.emit(*ch.pick(&[asm::EXP, asm::SIGNEXTEND, asm::BYTE, asm::SDIV]));
+                        b.emit(asm::POP);
+                    }
+                    _ => {
+                        // length (or offset) of the data a thread ends with
+                        acc.label("pattern:read-into-return-length");
+                        if ch.chance(1, 2) {
+                            b.push(W::ZERO);
+                        } else {
+                            b.push(W::ZERO);
+                            b.emit(asm::SWAP1);
+                        }
+                        b.level(2);
+                        b.ins.push(asm::op(*ch.pick(&[asm::RETURN, asm::REVERT])));
+                        b.level(0);
+                    }
+                }
             }
             1 => {
                 acc.label("pattern:read-and-popped");
